@@ -68,6 +68,31 @@ class C13(Prop):
     design_ref = "DESIGN.md §6 C13"
     # transcription pins (DESIGN II.7, weakest tie): the token text of the hand-transcribed files is the one the model was made from
     tie_modules = {
+        # the wiring ties: every piece of per-subscription state (slots, queues, composites, handler cells) is created INSIDE
+        # actual_subscribe, never in the operator value that clones share (seeds C13-6, -7, -8 moved it there)
+        "RxModel.GenTie.WiringBuffer": [],
+        "RxModel.GenTie.WiringCombineLatest": [],
+        "RxModel.GenTie.WiringCombineLatestThreads": [],
+        "RxModel.GenTie.WiringDebounce": [],
+        "RxModel.GenTie.WiringDelay": [],
+        "RxModel.GenTie.WiringDelayThreads": [],
+        "RxModel.GenTie.WiringFinalize": [],
+        "RxModel.GenTie.WiringFinalizeThreads": [],
+        "RxModel.GenTie.WiringMerge": [],
+        "RxModel.GenTie.WiringMergeThreads": [],
+        "RxModel.GenTie.WiringObserveOn": [],
+        "RxModel.GenTie.WiringObserveOnThreads": [],
+        "RxModel.GenTie.WiringSample": [],
+        "RxModel.GenTie.WiringSampleThreads": [],
+        "RxModel.GenTie.WiringSkipUntil": [],
+        "RxModel.GenTie.WiringSkipUntilThreads": [],
+        "RxModel.GenTie.WiringTakeUntil": [],
+        "RxModel.GenTie.WiringTakeUntilThreads": [],
+        "RxModel.GenTie.WiringThrottle": [],
+        "RxModel.GenTie.WiringWithLatestFrom": [],
+        "RxModel.GenTie.WiringWithLatestFromThreads": [],
+        "RxModel.GenTie.WiringZip": [],
+        "RxModel.GenTie.WiringZipThreads": [],
         "RxModel.GenTie.PinsCold": [],
     }
     rule = ("random operator trees (depth<=5) over cold sources (of, of_option, of_result, of_fn, start, from_iter, "
